@@ -241,3 +241,48 @@ func init() {
 		})
 	regExtern("github.com/free5gc/util/mongoapi.SetMongoDB", "SetMongoDB: any error result", pureOpaque)
 }
+
+// ---- Diameter client side: connections (C18) ------------------------------------------------
+//   ghostLiveConns int   number of Diameter connections opened by DialNetworkTLS and not yet closed
+
+func init() {
+	bump := func(ex *Exec, fr *Frame, st *State, pc *Term, cond *Term, delta int64) {
+		if g, ok := ex.ghostVar(fr, "ghostLiveConns"); ok {
+			cur := ex.ghostLoad(st, pc, g).(VBV).T
+			ex.ghostStore(st, g, VBV{Ite(cond, Add(cur, C64(delta)), cur)})
+		}
+	}
+	regExtern("(*github.com/fiorix/go-diameter/diam/sm.Client).DialNetworkTLS", "Client.DialNetworkTLS: either an error, or a new connection (with its reader and watchdog tasks): ghostLiveConns++",
+		func(ex *Exec, fr *Frame, st *State, pc *Term, fn *ssa.Function, args []Value, pos token.Pos) (Value, *Term) {
+			ex.safety(fr, "nil", pos, pc, Not(Eq(args[0].(VPtr).T, C64(0))))
+			ok := Fresh("dial.ok", BoolSort)
+			p := ex.alloc(st, pc)
+			bump(ex, fr, st, pc, ok, 1)
+			connTag := Const(typeTag(types.NewPointer(types.Typ[types.Int]))+7000, 64) // some concrete connection type
+			conn := VIface{Ite(ok, connTag, C64(0)), Ite(ok, p, C64(0))}
+			errTag := Ite(ok, C64(0), Const(typeTag(types.Universe.Lookup("error").Type())+1002, 64))
+			return VTuple{[]Value{conn, VIface{errTag, Ite(ok, C64(0), Fresh("dial.err", BV64))}}}, pc
+		})
+	externWrites["(*github.com/fiorix/go-diameter/diam/sm.Client).DialNetworkTLS"] = []string{"next"}
+	regExtern("github.com/fiorix/go-diameter/diam.Conn.Close", "Conn.Close: releases the connection and its tasks: ghostLiveConns--",
+		func(ex *Exec, fr *Frame, st *State, pc *Term, fn *ssa.Function, args []Value, pos token.Pos) (Value, *Term) {
+			bump(ex, fr, st, pc, True, -1)
+			return VTuple{}, pc
+		})
+	regExtern("github.com/fiorix/go-diameter/diam.Conn.Context", "Conn.Context: opaque", func(ex *Exec, fr *Frame, st *State, pc *Term, fn *ssa.Function, args []Value, pos token.Pos) (Value, *Term) {
+		return VIface{Fresh("ctx.tag", BV64), Fresh("ctx.pay", BV64)}, pc
+	})
+	regExtern("github.com/fiorix/go-diameter/diam/sm/smpeer.FromContext", "smpeer.FromContext: (metadata, ok); the metadata is non-nil when ok",
+		func(ex *Exec, fr *Frame, st *State, pc *Term, fn *ssa.Function, args []Value, pos token.Pos) (Value, *Term) {
+			ok := Fresh("meta.ok", BoolSort)
+			p := Fresh("meta.ptr", BV64)
+			ex.assume(pc, And(ULt(p, st.next), Implies(ok, Not(Eq(p, C64(0))))))
+			return VTuple{[]Value{VPtr{T: p}, VBool{ok}}}, pc
+		})
+	regExtern("github.com/fiorix/go-diameter/diam.NewRequest", "diam.NewRequest: a new message", func(ex *Exec, fr *Frame, st *State, pc *Term, fn *ssa.Function, args []Value, pos token.Pos) (Value, *Term) {
+		return VPtr{T: ex.alloc(st, pc)}, pc
+	})
+	externWrites["github.com/fiorix/go-diameter/diam.NewRequest"] = []string{"next"}
+	regPrefix("(*github.com/fiorix/go-diameter/diam/sm.StateMachine).", "sm.StateMachine methods: no effect on modelled state", pureOpaque)
+	regPrefix("github.com/fiorix/go-diameter/diam/sm.", "sm package functions: opaque", pureOpaque)
+}
